@@ -43,16 +43,17 @@ CONSTANTS Bases
 VARIABLES base, other, kind
 vars == <<base, other, kind>>
 Kinds == {"none", "pitch", "onset", "duration", "velocity", "channel-uniform", "channel-one-note", "ts-value", "ts-tick",
-          "ts-tick-far", "ks-value", "ks-tick", "ks-tick-far", "extra-note", "missing-note", "extra-ts", "extra-ks"}
+          "ts-tick-far", "ks-value", "ks-tick", "ks-tick-far", "extra-note", "missing-note", "extra-ts", "extra-ks", "velocity-unset"}
 EInit == base \in Bases /\ other = base /\ kind = "none"
 MapNote(sc, x, y) == [sc EXCEPT !.notes = (@ \ {x}) \cup {y}]
 MapExtra(sc, m, n) == [sc EXCEPT !.extras = (@ \ {m}) \cup {n}]
 Legal(sc) == NoOverlap(sc.notes) /\ \A x \in sc.notes : x.e > x.s /\ x.s >= 0
-NoteKinds5 == {"pitch", "onset", "duration", "velocity", "channel-one-note"}
+NoteKinds5 == {"pitch", "onset", "duration", "velocity", "channel-one-note", "velocity-unset"}
 NoteVariant(x, k) == CASE k = "pitch" -> [x EXCEPT !.p = @ + 1]
                        [] k = "onset" -> [x EXCEPT !.s = @ + 1, !.e = @ + 1]
                        [] k = "duration" -> [x EXCEPT !.e = @ + 1]
                        [] k = "velocity" -> [x EXCEPT !.v = @ + 1]
+                       [] k = "velocity-unset" -> [x EXCEPT !.v = -1]         \* a note-on created without a velocity
                        [] k = "channel-one-note" -> [x EXCEPT !.ch = @ + 1]
 SigVariant(m, k) == CASE k = "ts-value" -> [m EXCEPT !.n = @ + 1]
                       [] k = "ts-tick" -> [m EXCEPT !.t = @ + 1]
@@ -88,7 +89,7 @@ ContentOfScore(sc) == Content(AbsOfNotes(sc.notes, sc.extras, sc.dur))
 FlagOf(k) == CASE k \in {"channel-uniform", "channel-one-note"} -> "channel"
                [] k \in {"ts-value", "ts-tick", "ts-tick-far", "extra-ts"} -> "time_signature"
                [] k \in {"ks-value", "ks-tick", "ks-tick-far", "extra-ks"} -> "key_signature"
-               [] k = "velocity" -> "velocity"
+               [] k \in {"velocity", "velocity-unset"} -> "velocity"
                [] OTHER -> "no-flag"
 (* the property's table: a single-attribute difference is relaxed by exactly its own flag *)
 TableHolds ==
@@ -96,7 +97,7 @@ TableHolds ==
     \A fl \in SUBSET Flags :
        /\ kind = "none" => MustEqual(a, b, fl)
        /\ (kind # "none" /\ FlagOf(kind) \notin fl) => MustDiffer(a, b, fl)
-       /\ (kind \in {"velocity", "ts-value", "ts-tick", "ts-tick-far", "ks-value", "ks-tick", "ks-tick-far", "channel-uniform",
+       /\ (kind \in {"velocity", "velocity-unset", "ts-value", "ts-tick", "ts-tick-far", "ks-value", "ks-tick", "ks-tick-far", "channel-uniform",
                      "extra-ts", "extra-ks"}
              /\ FlagOf(kind) \in fl) => MustEqual(a, b, fl)
        /\ ~(MustEqual(a, b, fl) /\ MustDiffer(a, b, fl))
